@@ -134,7 +134,7 @@ def run_tlc(module, cfg, workers=None, env=None, timeout=3600, simulate=None, de
     Lines printed by PrintT(ToJson(x)) are decoded into result.emitted (or passed to on_emit)."""
     md = tempfile.mkdtemp(prefix="tlc-", dir=WORK if os.path.isdir(WORK) else None)
     os.makedirs(md, exist_ok=True)
-    jopts = "-Xmx%s -XX:+UseParallelGC" % heap
+    jopts = "-Xmx%s -Xss128m -XX:+UseParallelGC" % heap   # (deep recursive operators: the default thread stack overflowed intermittently)
     if dfs:
         jopts += " -Dtlc2.tool.queue.IStateQueue=StateDeque"
     cmd = ["java"] + jopts.split() + ["-cp", "/opt/veriftools/tla/tla2tools.jar:/opt/veriftools/tla/CommunityModules-deps.jar",
